@@ -85,9 +85,11 @@ func (h *holder) block(f func()) {
 			if atomic.CompareAndSwapInt64(&h.status, blocked, reacquiring) {
 				verifAt("block.send", h)
 				h.l.ch <- struct{}{}
+				verifAt("block.cas2", h)
 				// If we got released while waiting for the spot, release() did not
 				// touch ch (we were not acquired), so give the spot back ourselves.
 				if !atomic.CompareAndSwapInt64(&h.status, reacquiring, acquired) {
+					verifAt("block.giveback", h)
 					<-h.l.ch
 				}
 			}
